@@ -50,6 +50,19 @@ def Env.simple (env : Env) : Bool :=
     | .object ps | .oneof ps => ps.all (fun p => isValidUtf8 p.jsonName)
     | _ => true)
 
+def fieldNoAny : Field → Bool
+  | .any _ => false
+  | .array i => fieldNoAny i
+  | .map i => fieldNoAny i
+  | _ => true
+
+/-- no `Any` field anywhere in the environment (an `Any` carries `j5_json` bytes that the encoder
+inserts verbatim and unchecked) -/
+def Env.noAny (env : Env) : Bool :=
+  env.defs.all fun d => match d.2 with
+    | .object ps | .oneof ps => ps.all fun p => fieldNoAny p.field
+    | _ => true
+
 /-- scalar values: representable, strings valid UTF-8, decimals in normal form -/
 def scalarOk (O : Oracle) (k : ScalarKind) (v : PVal) : Bool :=
   scalarRepr O k v &&
